@@ -1,3 +1,5 @@
 #!/bin/bash
 # mirror the contract files of /repo into /verif/contracts (used only if a file is missing from the tree under test)
 cd /repo && find . -name 'verif_contracts*.go' | while read f; do mkdir -p /verif/contracts/$(dirname $f); cp $f /verif/contracts/$f; done
+# record the parameter/local names of all functions under contract (rename-robust attachment; run on the unchanged tree only)
+/verif/bin/dvc bind
